@@ -83,9 +83,11 @@ Definition cpu_entries (c : cpu) : symtab :=
 (* update_data / insert under the root: the CPU entries take precedence over same-named data *)
 Definition ensure_cpu_symbols (t : symtab) (c : cpu) : symtab := cpu_entries c ++ t.
 
-Definition env_of (c : cpu) (s : snapshot) : env :=
-  let t := ensure_cpu_symbols (s_syms s) c in
+(* the evaluator of a snapshot whose table got the entries `extra` under the root *)
+Definition env_with (extra : symtab) (s : snapshot) : env :=
+  let t := extra ++ s_syms s in
   mkEnv (fun p => get_symbol t (s_scope s) p) (Some (s_pc s)).
+Definition env_of (c : cpu) (s : snapshot) : env := env_with (cpu_entries c) s.
 
 (* ---------- the evaluator with the ram()/ram16() callbacks registered ---------- *)
 (* RamFn::apply after the argument was evaluated.  `read(a as u16, len)` slices the 64 KiB vector: a word read
@@ -103,14 +105,15 @@ Definition ram_fn (m : ram) (word : bool) (arg : eres) : eres :=
   | EPanic => EPanic
   end.
 
-Fixpoint eval_t (m : ram) (en : env) (e : expr) : eres :=
+(* generic in the callback behind ram()/ram16() *)
+Fixpoint eval_g (rf : ram -> bool -> eres -> eres) (m : ram) (en : env) (e : expr) : eres :=
   match e with
   | EBin op l r =>
-      match eval_t m en l with
+      match eval_g rf m en l with
       | EErr x => EErr x
       | EPanic => EPanic
       | EVal lv =>
-          match eval_t m en r with
+          match eval_g rf m en r with
           | EErr x => EErr x
           | EPanic => EPanic
           | EVal rv =>
@@ -123,17 +126,17 @@ Fixpoint eval_t (m : ram) (en : env) (e : expr) : eres :=
               end
           end
       end
-  | EParens inner fnot fneg => with_flags fnot fneg (eval_t m en inner)
+  | EParens inner fnot fneg => with_flags fnot fneg (eval_g rf m en inner)
   | ECall name args fnot fneg =>
       with_flags fnot fneg
         (if text_eqb name fn_ram || text_eqb name fn_ram16 then
            match args with
-           | [a] => ram_fn m (text_eqb name fn_ram16) (eval_t m en a)
+           | [a] => rf m (text_eqb name fn_ram16) (eval_g rf m en a)
            | _ => EErr ErrArgCount
            end
          else if text_eqb name t_defined then
            match args with
-           | [a] => match eval_t m en a with
+           | [a] => match eval_g rf m en a with
                     | EVal (Some _) => EVal (Some (SNum 1))
                     | EVal None => EVal (Some (SNum 0))
                     | EErr _ => EVal (Some (SNum 0))
@@ -144,6 +147,7 @@ Fixpoint eval_t (m : ram) (en : env) (e : expr) : eres :=
          else EErr (ErrUnknownFunction name))
   | ENum _ _ _ _ | EId _ _ _ _ | EPc _ _ | EStr _ _ _ => eval en e
   end.
+Definition eval_t : ram -> env -> expr -> eres := eval_g ram_fn.
 
 (* ---------- test elements ---------- *)
 (* line/column of the assertion's expression as the diagnostic prints it *)
